@@ -134,7 +134,13 @@ Push(sc) == Append(sc, [x \in {} |-> 0])
 Pop(sc) == SubSeq(sc, 1, Len(sc) - 1)
 
 (* ---- expressions ---------------------------------------------------------------------- *)
-RECURSIVE Eval(_, _), EvalSeq(_, _, _), EvalFields(_, _, _)
+RECURSIVE Eval(_, _), EvalSeq(_, _, _), EvalFields(_, _, _), ExecBlock(_, _, _, _)
+\* A settled future: the outcome of the block, which ran on a snapshot of the scopes visible where it was
+\* spawned.  Blocks communicate with their parent only through await, so the outcome does not depend on
+\* when the block runs and the definition may run it at once.
+Settled(r) == CASE r.ctl = "error" -> [ok |-> FALSE, v |-> VNull, err |-> r.val]
+                [] r.ctl \in {"return", "next"} -> [ok |-> TRUE, v |-> r.val, err |-> ""]
+                [] OTHER -> [ok |-> FALSE, v |-> VNull, err |-> "loopctl"]
 Eval(e, sc) ==
     CASE e.e = "lit" -> Ok(e.v)
       [] e.e = "var" -> Lookup(sc, e.n)
@@ -174,6 +180,13 @@ Eval(e, sc) ==
                              ELSE IF HasKey(o.v, i.v.v) THEN Ok(GetKey(o.v, i.v.v))
                              ELSE IF Dev("VM_MissingKeyNull") THEN Ok(VNull) ELSE Err("bounds")
                       ELSE Err("type")
+      [] e.e = "async" ->     \* async { body }: a future; the body sees a copy of the scopes, its writes stay in the copy
+            Ok([k |-> "fut", r |-> Settled(ExecBlock(e.b, Push(sc), MaxFuel, 1))])
+      [] e.e = "await" ->     \* the block's value, or its error, the same for every awaiter and every time
+            LET a == Eval(e.a, sc) IN
+            IF ~a.ok THEN a
+            ELSE IF a.v.k = "fut" THEN (IF a.v.r.ok THEN Ok(a.v.r.v) ELSE Err(a.v.r.err))
+            ELSE IF Dev("VM_AwaitPassesValue") THEN Ok(a.v) ELSE Err("type")
       [] e.e = "call" ->      \* builtins of the fragment, one argument
             LET a == Eval(e.a, sc) IN
             IF ~a.ok THEN a
@@ -216,7 +229,7 @@ R(sc, ctl, val, fuel) == [sc |-> sc, ctl |-> ctl, val |-> val, fuel |-> fuel]
 SortedFields(o) == LET idx == SelectSeq(KeyOrder, LAMBDA k : HasKey(o, k)) IN
                    [i \in 1..Len(idx) |-> [name |-> idx[i], v |-> GetKey(o, idx[i])]]
 
-RECURSIVE Exec(_, _, _), ExecBlock(_, _, _, _), While(_, _, _, _), ForEach(_, _, _, _, _), Switch(_, _, _, _, _)
+RECURSIVE Exec(_, _, _), While(_, _, _, _), ForEach(_, _, _, _, _), Switch(_, _, _, _, _)
 
 \* a block runs in a fresh child scope that is dropped on every kind of exit
 ExecBlock(stmts, sc, fuel, i) ==
@@ -323,7 +336,7 @@ Prec(op) == CASE op = "||" -> 2 [] op = "&&" -> 3
 
 FloatStr(q) == ToString(q \div 4) \o (CASE q % 4 = 0 -> ".0" [] q % 4 = 1 -> ".25" [] q % 4 = 2 -> ".5" [] q % 4 = 3 -> ".75")
 
-RECURSIVE SrcE(_, _), SrcList(_, _), SrcFields(_, _), SrcV(_), SrcVList(_, _), SrcVFields(_, _)
+RECURSIVE SrcE(_, _), SrcList(_, _), SrcFields(_, _), SrcV(_), SrcVList(_, _), SrcVFields(_, _), SrcB(_, _, _)
 SrcV(v) == CASE v.k = "null" -> "null"
              [] v.k = "bool" -> (IF v.v THEN "true" ELSE "false")
              [] v.k = "int" -> (IF v.v < 0 THEN "-" \o ToString(-v.v) ELSE ToString(v.v))
@@ -348,10 +361,12 @@ SrcE(e, min) ==
       [] e.e = "field" -> SrcE(e.o, 40) \o "." \o e.n
       [] e.e = "idx" -> SrcE(e.o, 40) \o "[" \o SrcE(e.i, 0) \o "]"
       [] e.e = "call" -> e.fn \o "(" \o SrcE(e.a, 0) \o ")"
+      [] e.e = "async" -> "async {\n" \o SrcB(e.b, 3, 1) \o "    }"
+      [] e.e = "await" -> Wrap("await " \o SrcE(e.a, 40), min > 0)     \* await takes a whole expression: (await f) + 1
 SrcList(es, i) == IF i > Len(es) THEN "" ELSE SrcE(es[i], 0) \o (IF i < Len(es) THEN ", " ELSE "") \o SrcList(es, i + 1)
 SrcFields(fs, i) == IF i > Len(fs) THEN "" ELSE fs[i].name \o ": " \o SrcE(fs[i].v, 0) \o (IF i < Len(fs) THEN ", " ELSE "") \o SrcFields(fs, i + 1)
 
-RECURSIVE SrcS(_, _), SrcB(_, _, _), SrcCases(_, _, _)
+RECURSIVE SrcS(_, _), SrcCases(_, _, _)
 Ind(n) == IF n = 0 THEN "" ELSE IF n = 1 THEN "  " ELSE IF n = 2 THEN "    " ELSE IF n = 3 THEN "      " ELSE "        "
 SrcS(s, n) ==
     Ind(n) \o
